@@ -140,7 +140,7 @@ MaskChecks(r, f) ==
 VolChecks(r) ==
     LET n == r.n
         RECURSIVE Sum(_)
-        Sum(i) == IF i = 0 THEN 0 ELSE r.volq[i] + Sum(i - 1)
+        Sum(i) == IF i = 0 THEN 0 ELSE LET t == Sum(i - 1) IN IF Abs(t) > 4 * QU THEN t ELSE r.volq[i] + t   \* saturating
     IN IF \A i \in 1..n : r.mask[i]
        THEN (IF ~Near(Sum(n), QU, n + 2) THEN {"cell measures do not sum to the box measure [C02]"} ELSE {})
             \cup (IF \E i \in 1..n : ~r.vpos[i] THEN {"a constructed cell has non-positive measure [C02]"} ELSE {})
